@@ -177,8 +177,7 @@ def nontrivial(ctx, pb, db, reps_dense):
 
 
 def pat_labels(ctx, pb, db):
-    ctx.label(f"pat={pattern(pb, db)}", f"pb_rank={len(pb)}", f"db_rank={len(db)}", f"nbeta={numel(bshape(pb, db))}",
-              f"pair={list(pb)}x{list(db)}" if numel(bshape(pb, db)) == 6 else "pair=(other)")
+    ctx.label(f"pat={pattern(pb, db)}", f"pb_rank={len(pb)}", f"db_rank={len(db)}", f"nbeta={numel(bshape(pb, db))}")
 
 
 # ---------------------------------------------------------------------------------------------------
@@ -221,8 +220,6 @@ def run_kernel(case, ctx: Ctx, build=None, desc=None, prep=None, smooth=None):
     with ctx.observing("build"):
         k = build(r)
     with ctx.observing("batched"):
-        if "torch_seed" in case:
-            torch.manual_seed(case["torch_seed"])
         got = eval_kernel(k, x1, x2, case["lazy"], case["diag"])
     reps = []
     for beta in betas(full):
